@@ -643,19 +643,47 @@ func (s *psim) mkBarrier() *pubRec {
 }
 
 // modelPub: what the property says must happen to every live subscription for publication p.
+//
+// Relaxed mode (narrow): only when the class lost-foreign-type-mismatch is a LISTED known finding,
+// the delivery of a publication on which some live subscription's query has an ill-typed operand
+// is treated as unspecified for every subscription (the known defect drops it for a map-order
+// dependent subset). Everything else stays exact.
 func (s *psim) modelPub(p *pubRec) {
 	s.pubs[p.id] = p
-	for _, o := range s.subs {
+	type verdict struct {
+		r tri
+		m bool
+	}
+	vs := make([]verdict, len(s.subs))
+	anyMism := false
+	for i, o := range s.subs {
 		if o.mCancelled {
 			continue
 		}
-		r, _ := evalQuery(o.conds, p.events)
+		r, m := evalQuery(o.conds, p.events)
+		vs[i] = verdict{r, m}
+		anyMism = anyMism || m
+	}
+	if anyMism {
+		s.env.Count("probe.publication_with_illtyped_query")
+	}
+	relax := anyMism && s.env.IsKnown("C19", "lost-foreign-type-mismatch")
+	for i, o := range s.subs {
+		if o.mCancelled {
+			continue
+		}
+		r := vs[i].r
+		if r == yes && (relax || (vs[i].m && s.env.IsKnown("C19", "lost-own-type-mismatch"))) {
+			r = either
+		}
 		switch r {
 		case no:
 		case either:
 			o.imprecise = true
 			o.exp = append(o.exp, expEntry{p.id, true})
-			s.env.Count("probe.unspecified_match")
+			if vs[i].r == either {
+				s.env.Count("probe.unspecified_match")
+			}
 		case yes:
 			if !o.imprecise && o.capacity > 0 && len(o.exp)-len(o.got) >= o.capacity {
 				// buffer full: the subscriber must be told (out of capacity); the message is not delivered
@@ -805,9 +833,6 @@ func (s *psim) lossClass(o *subRec, id int) string {
 	if p == nil {
 		return "lost-msg"
 	}
-	if _, m := evalQuery(o.conds, p.events); m {
-		return "lost-own-type-mismatch" // another value of the same key matches, one value does not fit the operand
-	}
 	for _, x := range s.subs {
 		if x == o || x.born >= id || (x.died >= 0 && x.died < id) {
 			continue
@@ -815,6 +840,9 @@ func (s *psim) lossClass(o *subRec, id int) string {
 		if _, m := evalQuery(x.conds, p.events); m {
 			return "lost-foreign-type-mismatch"
 		}
+	}
+	if _, m := evalQuery(o.conds, p.events); m {
+		return "lost-own-type-mismatch" // another value of the same key matches, one value does not fit the operand
 	}
 	return "lost-msg"
 }
